@@ -510,9 +510,16 @@ class SymInt(int):
         return lift(q), lift(m)
 
     def __truediv__(self, o):
-        raise Escape("true division of symbolic int")
+        # float division: exact (as a rational) only while the operands are exactly representable
+        if isinstance(o, int):
+            d = term(o)
+            if cur().decide(d == 0):
+                raise ZeroDivisionError("division by zero")
+            return SymQuot(self.t, d)
+        raise Escape("true division of symbolic int by a non-integer")
 
-    __rtruediv__ = __truediv__
+    def __rtruediv__(self, o):
+        raise Escape("true division by a symbolic int")
 
     def __pow__(self, o, mod=None):
         if mod is not None and not isinstance(o, SymInt) and not isinstance(mod, SymInt):
@@ -637,6 +644,26 @@ def _powmod(x, e, m):
         P.axiom(z3.Implies(xm != 0, fmul(xm, r) == 1))
         memo[key] = r
     return SymInt(memo[key])
+
+
+class SymQuot:
+    """x / k for a symbolic int x and a concrete int k (CPython float division).
+    int(x / k) equals the exact truncated quotient only while |x| < 2**53 (floats are exact
+    there and the correctly rounded quotient truncates to the exact one for |k| < 2**53 too);
+    beyond that the machine result is left unconstrained -- machine arithmetic is treated as
+    mathematical only where it is."""
+
+    def __init__(self, num, den):
+        self.num, self.den = num, den
+
+    def to_int(self):
+        P = cur()
+        r = P.fresh("trunc", define=(lambda val, n=self.num, d=self.den: int(val(n) / val(d))))
+        q, m = idivmod(self.num, self.den)
+        exact = z3.If(z3.And(m != 0, (self.num < 0) != (self.den < 0)), q + 1, q)
+        small = lambda t: z3.And(t > -(1 << 53), t < (1 << 53))
+        P.axiom(z3.Implies(z3.And(small(self.num), small(self.den)), r == exact))
+        return SymInt(r)
 
 
 class SymBool(SymInt):
